@@ -264,7 +264,8 @@ def build_case(rnd, tier, for_c15=False):
     for pi in range(nprints):
         steps.append(["event", EV_START])
         feats = mk(rel=rnd.random() < 0.3, inch=rnd.random() < 0.2, at=True, fw=rnd.random() < 0.2, p_inside=0.5, extgen=marks,
-                   p_ext=0.05, ext=False, zmoves=True, retmove=rnd.random() < 0.5, beds=False, hv=rnd.random() < 0.1)
+                   p_ext=0.05, ext=False, zmoves=True, retmove=rnd.random() < 0.5, beds=False, hv=rnd.random() < 0.1,
+                   arcs=rnd.random() < 0.4, arcs_rel=True, p_arc=0.12)
         if feats["fw"]:
             feats["fwparam"] = ""
         _, g = gen_program(rnd, feats, settings, nsteps=rnd.randint(10, 70), regions=regs)
